@@ -1,5 +1,5 @@
 (* C20 through the NFSv4.0 model - the property theorems, and nothing else. *)
-From VF Require Import Nfs40.Model Nfs40.Proofs20.
+From VF Require Import Nfs40.Model Nfs40.Proofs20 Nfs40.ProofsAux.
 From VF Require LockSet.Spec.
 Open Scope N_scope.
 
@@ -46,3 +46,12 @@ Theorem release_lockowner_gate : forall t client owner s l,
   do_release_lockowner t client owner s = (release client s1, RpOp (ResStatus ERR_LOCKS_HELD)).
 Proof. exact Proofs20.release_lockowner_gate. Qed.
 Print Assumptions release_lockowner_gate.
+
+(* one_owner_one_object: in every reachable state there is at most one
+   lock-owner object per (client, owner) and different lock-owners have
+   different identities in the lock tables *)
+Theorem one_owner_one_object : forall evs a b,
+  In a (st_los (state_after evs)) -> In b (st_los (state_after evs)) ->
+  ((lo_client a, lo_key a) = (lo_client b, lo_key b) -> a = b) /\ (lo_id a = lo_id b -> a = b).
+Proof. exact ProofsAux.one_owner_one_object. Qed.
+Print Assumptions one_owner_one_object.
